@@ -90,9 +90,11 @@ type traceExample struct {
 }
 
 type tracePrediction struct {
-	L      int        `json:"l"`
-	Entry  *run.Entry `json:"entry"`
-	Snap   *run.Snap  `json:"snap"`
+	L      int            `json:"l"`
+	Entry  *run.Entry     `json:"entry"`
+	Snap   *run.Snap      `json:"snap"`
+	Viz    *run.VizPic    `json:"viz"`
+	VizErr *run.VizErrPic `json:"vizerr"`
 	Strict struct {
 		V    bool `json:"v"`
 		Root bool `json:"root"`
@@ -229,6 +231,8 @@ func traceStageRun(cfg TraceSpecCfg, st *TraceStats, only int, timeout time.Dura
 		st.Predicted++
 		want := *p.Entry
 		want.Snap = p.Snap
+		want.Viz = p.Viz
+		want.VizErp = p.VizErr
 		opIdx := 0
 		for x := l - 1; x >= 1 && owner[x] == ci && lines[x] != nil; x-- {
 			opIdx++
